@@ -31,6 +31,8 @@ def run(an: Analysis, rep):
     from .common import purity
     rep.run(purity, an, rep, "R13.P", ["from_code"])
     rep.run(block_rules, an, rep)
+    from .common import local_memo_rule
+    rep.run(local_memo_rule, an, rep, "R13.M", ["from_code", "to_code"])
     rep.run(r135, an, rep)
     from .common import SharedRules
     from . import c02
